@@ -27,7 +27,7 @@ import (
 )
 
 var st = stat.New("C20",
-	"Trial = {schedule class free | forced | inflight | overflow; 1..8 logging goroutines each logging 1..50 numbered entries through two loggers with separate recording writers; 0..1000 entries of pre-occupancy; forced: the flusher is parked at the yield hook between its two polls, the last 1..20 entries of one goroutine are logged, the flush is requested (observed through an accessor), the flusher is released; inflight: a writer taking 40 ms per Write, flush requested while the last entry is off the queue but not yet written; overflow: 10001..10300 entries from one goroutine while the writer stalls for 250 ms}. Oracle over the recording writers after FlushLogger returned: every entry whose logging call returned before the flush request is present exactly once on the writer of its logger (and never on the other), entries of one goroutine appear in logging order, every Write call carries exactly one formatted entry (one line, one token), FlushLogger returns only after the flusher acknowledged (or the timeout passed) and within the 1 s flush timeout + slack. Non-trivial = forced trial, overflow trial, or >= 3 goroutines logging. Distinct = distinct trial JSON.",
+	"Trial = {schedule class free | forced | inflight | overflow; 1..8 logging goroutines each logging 1..50 numbered entries through two loggers with separate recording writers; 0..1000 entries of pre-occupancy; process-wide log level DEBUG..ERROR with every entry logged through a call that passes it - levelled calls only, or (a third of the trials) levelled calls at the trial's level, WARN and ERROR mixed with the raw calls WriteLog and Trace that ignore the level; in a quarter of the trials the level is raised to ERROR after the last logging call returned and before the flush is requested; forced: the flusher is parked at the yield hook between its two polls, the last 1..20 entries of one goroutine are logged, the flush is requested (observed through an accessor), the flusher is released; inflight: a writer taking 40 ms per Write, flush requested while the last entry is off the queue but not yet written; overflow: 10001..10300 entries from one goroutine while the writer stalls for 250 ms}. Oracle over the recording writers after FlushLogger returned: every entry whose logging call returned before the flush request is present exactly once on the writer of its logger (and never on the other), entries of one goroutine appear in logging order, every Write call carries exactly one formatted entry (one line, one token), FlushLogger returns only after the flusher acknowledged (or the timeout passed) and within the 1 s flush timeout + slack. Non-trivial = forced trial, overflow trial, or >= 3 goroutines logging. Distinct = distinct trial JSON.",
 	"the losing interleaving is a window of a few nanoseconds without the hook; the hook (build tag verif, committed to the repository) makes it deterministic, the select between the two ready cases remains random (p = 1/2 per trial)",
 	"logger state is reset between trials through an overlay accessor that restarts the background flusher")
 
@@ -42,6 +42,46 @@ type Trial struct {
 	Hold int `json:"hold,omitempty"`
 	// JSON: entries are formatted as JSON lines (rogger.SetFormat(rogger.Json)) instead of text
 	JSON bool `json:"json_format,omitempty"`
+	// Level: the process-wide log level during the trial (0 DEBUG, 1 INFO, 2 WARN, 3 ERROR);
+	// every entry is logged at a level that passes it, or through the raw path
+	Level int `json:"level,omitempty"`
+	// Mixed: the entries of a goroutine alternate between the levelled calls (at the trial's
+	// level, WARN, ERROR) and the raw calls WriteLog and Trace, which ignore the level
+	Mixed bool `json:"mixed,omitempty"`
+	// RaiseLevel: once every logging call has returned, and before the flush is requested,
+	// the process-wide level is raised to ERROR (as the admin command setloglevel does)
+	RaiseLevel bool `json:"raise_level,omitempty"`
+}
+
+// emit logs entry i of goroutine g through the call the trial prescribes for it.
+func (t Trial) emit(lg *rogger.Logger, g, i int, tok string) {
+	lvl := rogger.LogLevel(t.Level)
+	if !t.Mixed {
+		if lvl < rogger.INFO {
+			lvl = rogger.INFO
+		}
+		lg.Writef(0, lvl, "%s", []interface{}{tok})
+		return
+	}
+	switch (g*5 + i) % 6 {
+	case 0, 1:
+		lg.Writef(0, lvl, "%s", []interface{}{tok})
+	case 2:
+		lg.Errorf("%s", tok)
+	case 3:
+		lg.WriteLog([]byte(tok + "\n"))
+	case 4:
+		if lg.Writer().NeedPrefix() {
+			lg.Trace(tok)
+		} else {
+			lg.Trace(tok + "\n")
+		}
+	default:
+		if lvl < rogger.WARN {
+			lvl = rogger.WARN
+		}
+		lg.Writef(0, lvl, "%s", []interface{}{tok})
+	}
 }
 
 func (t Trial) hold() int {
@@ -107,6 +147,9 @@ func draw(rt *rapid.T) Trial {
 	t := Trial{Class: rapid.SampledFrom([]string{"free", "free", "free", "free", "free", "free", "free", "free", "free", "forced", "forced", "forced", "forced", "forced", "forced", "forced", "forced", "forced", "forced", "forced", "forced", "forced", "forced", "forced", "inflight", "inflight", "inflight", "overflow"}).Draw(rt, "class")}
 	t.Goroutines = rapid.IntRange(1, 8).Draw(rt, "goroutines")
 	t.JSON = rapid.IntRange(0, 3).Draw(rt, "jsonFormat") == 0
+	t.Level = rapid.SampledFrom([]int{0, 0, 0, 1, 2, 3}).Draw(rt, "level")
+	t.Mixed = rapid.IntRange(0, 2).Draw(rt, "mixed") == 0
+	t.RaiseLevel = rapid.IntRange(0, 3).Draw(rt, "raiseLevel") == 0
 	if t.Class == "overflow" {
 		t.Goroutines = 1
 		t.Extra = rapid.IntRange(1, 300).Draw(rt, "extra")
@@ -149,6 +192,8 @@ func run(t Trial) *stat.Failure {
 		rogger.SetFormat(rogger.Json)
 		defer rogger.SetFormat(rogger.Text)
 	}
+	rogger.SetLevel(rogger.LogLevel(t.Level))
+	defer rogger.SetLevel(rogger.DEBUG)
 	defer func() {
 		// the flusher exits after a flush; restart it for the next trial
 		rogger.VerifStopFlusher()
@@ -173,7 +218,7 @@ func run(t Trial) *stat.Failure {
 		}
 	}
 	for i := 0; i < t.Pre; i++ {
-		l2.Infof("%s", token(no, 99, i))
+		l2.Errorf("%s", token(no, 99, i))
 	}
 	// goroutine g logs through l1 when g is even, l2 when odd; goroutine 0 keeps its last
 	// entry for the forced phase
@@ -191,7 +236,7 @@ func run(t Trial) *stat.Failure {
 				lg = l2
 			}
 			for i := 0; i < n; i++ {
-				lg.Infof("%s", token(no, g, i))
+				t.emit(lg, g, i, token(no, g, i))
 				if i%7 == 3 {
 					time.Sleep(0)
 				}
@@ -210,7 +255,7 @@ func run(t Trial) *stat.Failure {
 			case <-time.After(10 * time.Millisecond):
 				// the flusher is already idle in its blocking poll: wake it with a filler
 				// entry (on the second writer), after which it passes the yield point
-				l2.Infof("%s", token(no, 98, attempt))
+				l2.Errorf("%s", token(no, 98, attempt))
 			}
 		}
 		if !isParked {
@@ -219,7 +264,7 @@ func run(t Trial) *stat.Failure {
 			return stat.Failf("harness-failure", "flusher never reached the yield point (hook not compiled in? build needs -tags verif)")
 		}
 		for i := t.Entries[0] - t.hold(); i < t.Entries[0]; i++ {
-			l1.Infof("%s", token(no, 0, i)) // returns: the entry is queued
+			t.emit(l1, 0, i, token(no, 0, i)) // returns: the entry is queued
 		}
 	}
 	if t.Class == "inflight" {
@@ -228,6 +273,9 @@ func run(t Trial) *stat.Failure {
 		for time.Now().Before(dl) && !(rogger.VerifQueueLen() == 0 && atomic.LoadInt32(&w1.inside) > 0) {
 			time.Sleep(200 * time.Microsecond)
 		}
+	}
+	if t.RaiseLevel {
+		rogger.SetLevel(rogger.ERROR)
 	}
 	t0 := time.Now()
 	flushed := make(chan struct{})
@@ -339,7 +387,14 @@ func TestC20(t *testing.T) {
 	installHook()
 	_ = bytes.MinRead
 	stat.Check(t, st, "flush", stat.N(1500, 40000), draw, func(tr Trial) *stat.Failure {
-		st.CaseJSON(tr, tr.Class != "free" || tr.Goroutines >= 3, "class-"+tr.Class, fmt.Sprintf("goroutines-%d", tr.Goroutines))
+		cls := []string{"class-" + tr.Class, fmt.Sprintf("goroutines-%d", tr.Goroutines), fmt.Sprintf("level-%d", tr.Level)}
+		if tr.Mixed {
+			cls = append(cls, "levelled-and-raw-calls-mixed")
+		}
+		if tr.RaiseLevel {
+			cls = append(cls, "level-raised-before-flush")
+		}
+		st.CaseJSON(tr, tr.Class != "free" || tr.Goroutines >= 3, cls...)
 		return run(tr)
 	})
 }
